@@ -201,7 +201,9 @@ class Body:
         return seen
 
     def live_blocks(self):
-        return self.reachable(0)
+        if getattr(self, "_live", None) is None:
+            self._live = self.reachable(0)
+        return self._live
 
     def dominators(self):
         """dom[b] = set of blocks dominating b (over blocks reachable from entry)"""
